@@ -95,6 +95,19 @@ def check(ctx: Ctx):
     fao = repo.func(REL, "find_arg_optimal")
     moderules.check_comparator_coherence(ctx, fao, "R-MODE", need_both=True)
     moderules.check_init_identity(ctx, fao, "R-MODE")
+    # ties / slots of find_arg_optimal (shared with C06): all optimal values are returned, by exact equality
+    from .. import relrules as _RR
+    ctx.rule("R-TIES", "find_arg_optimal: ties (exact equality) append the candidate, strict improvements restart the list; the list starts empty")
+    _loops = _RR.domain_loops(fao, fao.params[0])
+    _accs = {cf.acc for cf in moderules.accumulator_compares(fao)}
+    if len(_loops) == 1 and len(_accs) == 1:
+        _acc = next(iter(_accs))
+        _lists = {norm(c.func.value) for c in ast.walk(_loops[0]) if isinstance(c, ast.Call) and isinstance(c.func, ast.Attribute) and c.func.attr == "append"}
+        _ln = next(iter(_lists)) if len(_lists) == 1 else "var_val"
+        _RR.check_arg_list_update(ctx, fao, "R-TIES", _loops[0], _ln, _acc)
+        _RR.check_list_starts_empty(ctx, fao, "R-TIES", _ln, _loops[0])
+    else:
+        ctx.bad("R-TIES", "find_arg_optimal: domain loop with one running optimum", fao, fao.node, "")
     proj = repo.func(REL, "projection")
     moderules.check_mode_args(ctx, [proj], "R-MODE")
     # ---- join / projection (shared with C12) ---------------------------------------------------
@@ -275,6 +288,17 @@ def _util(ctx, repo, cls):
               "the parent receives the best achievable utility of the sub-tree as a function of the separator only")
     ctx.check("self._joined_utils" not in [norm(s.targets[0]) for s in top if isinstance(s, ast.Assign) and isinstance(s.value, ast.Call) and call_name(s.value) == "projection"], "R-UTIL",
               "the accumulated (un-projected) relation is kept for the VALUE phase", cu, cu.node, "the VALUE phase slices the relation that still depends on the own variable")
+    # the accumulated relation is only ever extended: every write outside __init__ is join(self._joined_utils, <something>)
+    n_acc = 0
+    for w in field_writes(cls, "_joined_utils"):
+        if w.func.name == "__init__":
+            continue
+        n_acc += 1
+        v = w.value
+        okw = isinstance(v, ast.Call) and call_name(v) == "join" and len(v.args) == 2 and norm(v.args[0]) == "self._joined_utils"
+        ctx.check(okw, "R-UTIL", f"{w.func.name}: the accumulated relation is extended by join(self._joined_utils, ..), never replaced", w.func, w.stmt,
+                  "it already holds the variable's own costs (and the children's utilities): rebuilding it from the constraints alone drops them")
+    ctx.check(n_acc >= 3, "R-UTIL", "accumulation sites found", cls, cls.node, f"{n_acc}")
     for f in (um, cls.methods["on_start"]):
         for l in ast.walk(f.node):
             if isinstance(l, ast.For) and norm(l.iter) == "self._constraints":
@@ -386,5 +410,7 @@ VARIANTS = [
     ("ownership_keeps_all", _D, "                if descendant in names:\n                    constraints.remove(r)\n                    break", "                if descendant in names and len(names) > 2:\n                    constraints.remove(r)\n                    break", "break", "R-OWNERSHIP"),
     ("util_type_typo", _D, "                msg = DpopMessage(\"UTIL\", util)\n                self.logger.info(\n                    f\"On UTIL from", "                msg = DpopMessage(\"UTILS\", util)\n                self.logger.info(\n                    f\"On UTIL from", "break", "R-"),
     ("join_fast_path_unordered", _R, "    dims = u1.dimensions[:]\n    for d2 in u2.dimensions:", "    if isinstance(u1, NAryMatrixRelation) and isinstance(u2, NAryMatrixRelation) and set(u1.scope_names) == set(u2.scope_names):\n        return NAryMatrixRelation(u1.dimensions, u1._m + u2._m, name='joined_utils')\n    dims = u1.dimensions[:]\n    for d2 in u2.dimensions:", "break", "R-ALIGN"),
+    ("isolated_rebuilds_joined", _D, "                for r in self._constraints:\n                    self._joined_utils = join(self._joined_utils, r)\n\n                values, current_cost = find_arg_optimal(", "                self._joined_utils = functools.reduce(join, self._constraints)\n\n                values, current_cost = find_arg_optimal(", "break", "R-UTIL"),
+    ("tie_by_tolerance", _R, "        elif current_rel_val == best_rel_val:", "        elif abs(current_rel_val - best_rel_val) < 1e-9:", "break", "R-TIES"),
     ("n_value_lists_renamed", _D, ["variables_msg", "values_msg"], ["sep_vars", "sep_vals"], "neutral"),
 ]
